@@ -20,12 +20,14 @@
 import enum
 from collections import namedtuple
 from configparser import ConfigParser
+from configparser import Error as ConfigParserError
 
 import numpy as np
 
 from .api import NpuAccelerator
 from .errors import CliOptionError
 from .errors import ConfigOptionError
+from .errors import InputFileError
 from .ethos_u55_regs.ethos_u55_regs import resampling_mode
 from .numeric_util import full_shape
 from .numeric_util import round_up
@@ -584,8 +586,12 @@ class ArchitectureFeatures:
         self.vela_config = None
 
         if vela_config_files is not None:
-            self.vela_config = ConfigParser()
-            self.vela_config.read(vela_config_files)
+            # Values are plain text ('%' has no special meaning); a file that cannot be parsed is an input file error
+            self.vela_config = ConfigParser(interpolation=None)
+            try:
+                self.vela_config.read(vela_config_files)
+            except ConfigParserError as ex:
+                raise InputFileError(str(vela_config_files), " ".join(str(ex).split()))
 
         # read system configuration
         sys_cfg_section = "System_Config." + self.system_config
